@@ -73,7 +73,8 @@ def entry_points():
                               .sample(par, [1.0, 2.0], n_samples=2, seed=seed))
     pops = {'G': rp.G(2), 'LNnc': rp.LN(1, False), 'TG': rp.TG(1), 'H': rp.H(1),
             'comp': rp.Comp([rp.G(1), rp.TG(1), rp.LN(1)]),
-            'cov': rp.Cov(rp.G(1), 1)}
+            'cov': rp.Cov(rp.G(1), 1),
+            'compcov': rp.Comp([rp.G(1), rp.Cov(rp.G(1), 1), rp.Cov(rp.LN(1), 1)])}
     for k, spec in pops.items():
         n_ids = 3 if k == 'H' else 2
         top = popvals.top_values(spec, n_ids, 0)
@@ -144,7 +145,7 @@ def entry_points():
 
 DETERMINISTIC = {'pop:P'}
 GENERATOR_OK = {'err:G', 'err:M', 'err:CM', 'err:LN', 'pop:G', 'pop:LNnc', 'pop:TG',
-                'pop:H', 'pop:comp', 'pop:cov', 'pred1', 'pred2', 'poppred',
+                'pop:H', 'pop:comp', 'pop:cov', 'pop:compcov', 'pred1', 'pred2', 'poppred',
                 'postpred', 'pam', 'priorpred'}
 
 
@@ -187,7 +188,11 @@ def w_seeds(case):
     eps = entry_points()
     e = case['entry']
     viol = []
-    r1, r2 = _arr(eps[e](1)), _arr(eps[e](2))
+    r0, r1, r2 = _arr(eps[e](0)), _arr(eps[e](1)), _arr(eps[e](2))
+    if np.array_equal(r0, r1) or np.array_equal(r0, r2):
+        viol.append({'sub': 'seeds0', 'message': 'seed 0 gives the same draws as '
+                     'another seed (%s)' % e, 'expected': 'different',
+                     'observed': r0, 'behaviour': 'seed_ignored:' + e})
     if np.array_equal(r1, r2):
         viol.append({'sub': 'seeds', 'message': 'seeds 1 and 2 give identical '
                      'draws (%s)' % e, 'expected': 'different', 'observed': r1,
@@ -226,26 +231,33 @@ def w_streams(case):
     eps = entry_points()
     e = case['entry']
     viol = []
+    sd = case.get('seed', 7)
     with Seam(Script()) as seam:
-        S0 = _arr(eps[e](7))
+        S0 = _arr(eps[e](sd))
     variates = []
     for s_, i_, k_, c_ in seam.log:
         if (s_, i_, k_) not in variates:
             variates.append((s_, i_, k_))
     shared = {}
     ntr = 1
+    pop_draws = e == 'poppred'
     for (st, ix, kind) in variates:
         if kind == 'i':
             continue
         base = seam.script(st, ix, kind)
         with Seam(Script({(st, ix): base + (0.37 if kind == 'z' else 0.041)})):
-            S1 = _arr(eps[e](7))
+            S1 = _arr(eps[e](sd))
         ntr += 1
         if S1.shape != S0.shape:
             continue
         changed = [tuple(int(a) for a in c) for c in np.argwhere(
             ~np.isclose(S1, S0, rtol=0, atol=1e-12))]
-        if len(changed) > 1 and not case.get('parameter_draws'):
+        if pop_draws:
+            # an individual's parameter draw legitimately reaches all times of that
+            # individual -- but never two individuals (last axis = sample)
+            if len(set(c[-1] for c in changed)) > 1:
+                shared['%s[%d]' % (st, ix)] = changed
+        elif len(changed) > 1:
             shared['%s[%d]' % (st, ix)] = changed
     if shared:
         viol.append({'sub': 'streams', 'message': 'one base variate reaches several '
@@ -266,7 +278,7 @@ def build(tier, seed):
     ops = ['gseed7', 'grand'] + ['%s@%d' % (n, s) for n in names for s in (1, 2)]
     hist = []
     for e in names:
-        for s in (1, 2):
+        for s in (0, 1, 2):
             for d in range(1, depth + 1):
                 if d == 1:
                     prefixes = [[o] for o in ops]
@@ -277,11 +289,15 @@ def build(tier, seed):
                 for p in prefixes:
                     hist.append({'entry': e, 'seed': s, 'prefix': p})
     seeds = [{'entry': e, 'generator': e in GENERATOR_OK} for e in names]
+    seed_alphabet = (0, 1, 2)
     # streams: entry points whose result cells are noise cells; for routines that
     # draw parameter sets first (prior/posterior/population) a parameter draw
     # legitimately reaches a whole sample, so only the noise partition of the plain
     # predictive model and the model samplers is required here (C15 decides the rest)
-    streams = [{'entry': e} for e in names if e.startswith(('err:', 'pop:', 'pred'))]
+    # (seed 0 is in the alphabet: a falsy seed must behave like any other seed)
+    streams = [{'entry': e, 'seed': sd} for e in names
+               if e.startswith(('err:', 'pop:', 'pred', 'poppred'))
+               for sd in (7, 0)]
     return {
         'parts': [
             Part('histories', hist, w_history,
